@@ -14,6 +14,12 @@ machine state and EVERY input script:
                            comes again with the SAME machine and the rest of the input (no advance);
   * `prompt_readonly`    : the prompt cannot change the machine: it takes it as a value and returns only
                            output text, remaining input and next/exit;
+  * `plain_step` / `stepped_step` : one iteration of the run loop without stepping and one with
+                           stepping active (interpreted mode or TF set) whose prompt is answered
+                           `next` run the SAME `stepBody` — the same instruction on the same machine,
+                           context and index with the same continuation; only the output gains the
+                           banner and the input loses the one answered line: stepping is transparent
+                           step by step.
 Whole-run transparency (same output minus banners, same final machine, one prompt per instruction)
 is checked on the model and against the real CLI by the L4 `prompt` group (stepping by -i, by a
 POPF-set trap flag, by INT 3).
@@ -89,5 +95,39 @@ theorem prompt_appends (m : Machine) : ∀ (stdin : List String) (out : String),
     no machine — whatever the script, the machine the program continues with is the one it had -/
 theorem prompt_readonly (m : Machine) (stdin : List String) (out : String) :
     ∃ (o : String) (rest : List String) (e : PromptEnd), prompt m stdin out = (o, rest, e) := ⟨_, _, _, rfl⟩
+
+
+/-! ### one loop iteration with and without stepping -/
+section
+variable (p : Prog) (fuel idx : Nat) (m : Machine) (ctx : Ctx) (out : String) (tr : List Nat)
+
+theorem plain_step (stdin : List String) (hq : (p.interpreted || getFlag m.flag .TRAP) = false) :
+    loop p (fuel + 1) idx m ctx stdin out tr = stepBody p (loop p fuel) idx m ctx stdin out tr := by
+  simp [loop, prePrompt, hq]
+
+theorem stepped_step (l : String) (rest : List String) (line : Nat) (text : String)
+    (hq : (p.interpreted || getFlag m.flag .TRAP) = true) (hidx : idx + 2 ≤ p.code.size)
+    (hi : lineInfo p idx = some (line, text)) (hn : trimLower l = "n" ∨ trimLower l = "next") :
+    loop p (fuel + 1) idx m ctx (l :: rest) out tr =
+      stepBody p (loop p fuel) idx m ctx rest
+        (out ++ s!"About to execute line {line} : {text}\n" ++ (if getFlag m.flag .TRAP then "Trap flag is set\n" else "") ++ ">>> ") tr := by
+  have hp := prompt_next m l rest
+    (out ++ s!"About to execute line {line} : {text}\n" ++ (if getFlag m.flag .TRAP then "Trap flag is set\n" else "")) hn
+  simp only [loop, prePrompt, hq, hidx, hi, decide_true, Bool.and_self, if_true]
+  rw [hp]
+  rfl
+
+/-- `quit` or end of input at the prompt ends the run without executing the instruction -/
+theorem stepped_quit (stdin : List String) (line : Nat) (text : String)
+    (hq : (p.interpreted || getFlag m.flag .TRAP) = true) (hidx : idx + 2 ≤ p.code.size)
+    (hi : lineInfo p idx = some (line, text))
+    (he : (prompt m stdin (out ++ s!"About to execute line {line} : {text}\n" ++ (if getFlag m.flag .TRAP then "Trap flag is set\n" else ""))).2.2 = .exit) :
+    (loop p (fuel + 1) idx m ctx stdin out tr).trace = tr.reverse ∧ (loop p (fuel + 1) idx m ctx stdin out tr).final = none := by
+  simp only [loop, prePrompt, hq, hidx, hi, Bool.and_self, decide_true, if_true]
+  generalize prompt m stdin _ = r at he
+  rcases r with ⟨o, s, e⟩
+  simp only at he; subst he
+  simp
+end
 
 end Emu8086.Props.C20
